@@ -1,6 +1,7 @@
 package c31
 
 import (
+	"bytes"
 	"fmt"
 	"hash/fnv"
 	"math/rand"
@@ -24,6 +25,8 @@ type hintCase struct {
 	PType   string `json:"parsed_type,omitempty"`
 	PVer    string `json:"parsed_version,omitempty"`
 	Err     string `json:"err,omitempty"`
+	VClass  string `json:"version_class,omitempty"`
+	Input   string `json:"noisy_input,omitempty"`
 }
 
 var reHyphenVDigit = regexp.MustCompile(`-v\d`)
@@ -37,10 +40,33 @@ func typeClass(t string) string {
 
 type mon struct {
 	r *vlib.Run
+
+	versionClasses nameSet // printed versions by class
+	inputForms     nameSet // shapes of the constructor input
+	refusedForms   nameSet // shapes the constructors / IsValid refuse
+	entryPoints    nameSet
+	noiseKinds     nameSet
+	noiseOutcomes  nameSet
+	inconsistent   nameSet // pairs of versions on which Version.Compare is not an order
+	nRichSamples   int
 }
 
-// checkHint: one (type, version) already known to be valid.
-func (m *mon) checkHint(t hint.Type, v util.Version, via string) {
+// sameHint: exactly the same type and version; the printed form byte for byte
+// and the repository's own Version.Compare / Hint.Equal.
+func sameHint(p hint.Hint, t hint.Type, v util.Version, s string) bool {
+	pv := p.Version()
+	return p.Type() == t &&
+		pv.String() == v.String() &&
+		pv.Compare(v) == 0 && v.Compare(pv) == 0 &&
+		pv.Major() == v.Major() && pv.Minor() == v.Minor() && pv.Patch() == v.Patch() &&
+		pv.Prerelease() == v.Prerelease() &&
+		p.String() == s && bytes.Equal(p.Bytes(), []byte(s)) &&
+		p.Equal(hint.NewHint(t, v))
+}
+
+// checkHint: one (type, version) already known to be valid. rich: also the
+// registry entry points with this single hint registered, and noisy inputs.
+func (m *mon) checkHint(t hint.Type, v util.Version, via string, rich bool) {
 	r := m.r
 	hc := hintCase{Type: string(t), Version: v.String(), Via: via}
 	r.Guard("NewHint/ParseHint", hc, func() {
@@ -48,24 +74,42 @@ func (m *mon) checkHint(t hint.Type, v util.Version, via string) {
 		if err := h.IsValid(nil); err != nil {
 			// not "a hint made from a valid type and version" in the sense of Hint.IsValid (e.g. version longer than 20)
 			r.Count("skipped_hint_invalid_by_IsValid", 1)
+			m.refusedForms.add("Hint.IsValid:version-longer-than-MaxVersionLength")
 			return
 		}
 		s := h.String()
 		hc.Printed = s
+		tclass, vclass := typeClass(string(t)), versionClass(v)
+		hc.VClass = vclass
 		r.Case("h/" + s)
 		r.Count("hints_printed_and_parsed", 1)
-		r.SetAdd("type_classes", typeClass(string(t)))
-		r.Count("hints_"+typeClass(string(t)), 1)
+		r.SetAdd("type_classes", tclass)
+		r.Count("hints_"+tclass, 1)
+		m.versionClasses.add(vclass)
+		if v.Prerelease() != "" {
+			r.Count("hints_with_prerelease", 1)
+		}
+		if strings.IndexByte(v.String(), '+') >= 0 {
+			r.Count("hints_with_build_metadata", 1)
+		}
+		if strings.ToLower(v.String()) != v.String() {
+			r.Count("hints_with_upper_case_letter_in_version", 1)
+		}
+		if rich && m.nRichSamples < 2 && strings.ToLower(v.String()) != v.String() && v.Prerelease() != "" && (m.nRichSamples == 0 || via != "directed-version") {
+			m.nRichSamples++
+			r.Sample(hc)
+		}
 
 		judge := func(fn string, p hint.Hint, err error) {
 			c := hc
+			m.entryPoints.add(fn)
 			if err != nil {
 				c.Err = err.Error()
-				r.Violation(fmt.Sprintf("%s:error-on-printed-hint:%s", fn, typeClass(string(t))),
+				r.Violation(fmt.Sprintf("%s:error-on-printed-hint:%s:version-class=%s", fn, tclass, vclass),
 					fmt.Sprintf("%s(%q) failed: %v; printed from type %q version %q", fn, s, err, t, v), c)
 				return
 			}
-			if p.Type() == t && p.Version().String() == v.String() && p.Version().Compare(v) == 0 {
+			if sameHint(p, t, v, s) {
 				r.Count("parsed_back_identical", 1)
 				return
 			}
@@ -74,8 +118,8 @@ func (m *mon) checkHint(t hint.Type, v util.Version, via string) {
 			if p.IsValid(nil) == nil {
 				validity = "parsed-hint-valid"
 			}
-			r.Violation(fmt.Sprintf("%s:printed-hint-parses-to-different-hint:%s:%s", fn, validity, typeClass(string(t))),
-				fmt.Sprintf("NewHint(%q, %q).String() = %q; %s gives type %q version %q (%s)", t, v, s, fn, p.Type(), p.Version(), validity), c)
+			r.Violation(fmt.Sprintf("%s:printed-hint-parses-to-different-hint:%s:%s:version-class=%s", fn, validity, tclass, vclass),
+				fmt.Sprintf("NewHint(%q, %q).String() = %q; %s gives %q = type %q version %q prerelease %q (%s)", t, v, s, fn, p.String(), p.Type(), p.Version(), p.Version().Prerelease(), validity), c)
 		}
 
 		p, err := hint.ParseHint(s)
@@ -84,7 +128,134 @@ func (m *mon) checkHint(t hint.Type, v util.Version, via string) {
 		var u hint.Hint
 		err = u.UnmarshalText([]byte(s))
 		judge("Hint.UnmarshalText", u, err)
+
+		judge("EnsureParseHint", hint.EnsureParseHint(s), nil)
+
+		func() {
+			defer func() {
+				if e := recover(); e != nil {
+					judge("MustNewHint", hint.Hint{}, fmt.Errorf("panic: %v", e))
+				}
+			}()
+			judge("MustNewHint", hint.MustNewHint(s), nil)
+		}()
+
+		if !rich {
+			return
+		}
+
+		// text and JSON encodings of the hint
+		if b, err := h.MarshalText(); err != nil || string(b) != s {
+			judge("Hint.MarshalText", hint.Hint{}, fmt.Errorf("MarshalText gives %q, %v", b, err))
+		} else {
+			var w hint.Hint
+			err = w.UnmarshalText(b)
+			judge("Hint.MarshalText/UnmarshalText", w, err)
+		}
+		if b, err := util.MarshalJSON(hint.NewHinterJSONHead(h)); err != nil {
+			judge("JSON(_hint)", hint.Hint{}, err)
+		} else {
+			var head hint.HinterJSONHead
+			err = util.UnmarshalJSON(b, &head)
+			judge("JSON(_hint)", head.H, err)
+			var shead hint.HintedJSONHead
+			if err = util.UnmarshalJSON(b, &shead); err != nil {
+				judge("JSON(_hint-string)/ParseHint", hint.Hint{}, err)
+			} else {
+				p, err = hint.ParseHint(shead.H)
+				judge("JSON(_hint-string)/ParseHint", p, err)
+			}
+		}
+
+		// the registry with this one hint registered: every lookup hands back exactly this hint
+		var sets []*hint.CompatibleSet[int]
+		for _, cs := range []int{0, 8} {
+			st := hint.NewCompatibleSet[int](cs)
+			if err := st.Add(h, 7); err != nil {
+				judge("CompatibleSet.Add", hint.Hint{}, err)
+				continue
+			}
+			sets = append(sets, st)
+			for round := 0; round < 2; round++ { // second round is served by the cache when it is on
+				fh, fv, found, err := st.FindByString(s)
+				m.judgeRegistered("CompatibleSet.FindByString", judge, fh, fv, found, err)
+				fv, found = st.Find(h)
+				m.judgeRegistered("CompatibleSet.Find", judge, h, fv, found, nil)
+				fh, fv, found = st.FindBytType(t)
+				m.judgeRegistered("CompatibleSet.FindBytType", judge, fh, fv, found, nil)
+				fh, fv, found, err = st.FindBytTypeString(string(t))
+				m.judgeRegistered("CompatibleSet.FindBytTypeString", judge, fh, fv, found, err)
+			}
+			n := 0
+			st.Traverse(func(th hint.Hint, tv int) bool {
+				n++
+				m.judgeRegistered("CompatibleSet.Traverse", judge, th, tv, true, nil)
+				return true
+			})
+			if n != 1 {
+				judge("CompatibleSet.Traverse", hint.Hint{}, fmt.Errorf("%d entries after one Add", n))
+			}
+		}
+
+		// noise around the printed hint: an error, an invalid hint, or exactly this hint
+		for _, ni := range noisyInputs(t, v, s) {
+			m.noiseKinds.add(ni.kind)
+			njudge := func(fn string, p hint.Hint, err error) {
+				r.Count("noisy_inputs_parsed", 1)
+				m.entryPoints.add(fn + "(noisy)")
+				switch {
+				case err != nil:
+					m.noiseOutcomes.add("error")
+				case p.IsValid(nil) != nil:
+					m.noiseOutcomes.add("invalid-hint")
+				case sameHint(p, t, v, s):
+					m.noiseOutcomes.add("the-printed-hint")
+				default:
+					c := hc
+					c.Input = ni.s
+					c.Parsed, c.PType, c.PVer = p.String(), string(p.Type()), p.Version().String()
+					r.Violation(fmt.Sprintf("%s:noisy-input-parses-to-different-valid-hint:noise=%s:%s:version-class=%s", fn, ni.kind, tclass, vclass),
+						fmt.Sprintf("%q printed from type %q version %q; with noise (%s) %s(%q) gives the valid hint %q = type %q version %q", s, t, v, ni.kind, fn, ni.s, p.String(), p.Type(), p.Version()), c)
+				}
+			}
+			p, err := hint.ParseHint(ni.s)
+			njudge("ParseHint", p, err)
+			var u hint.Hint
+			err = u.UnmarshalText([]byte(ni.s))
+			njudge("Hint.UnmarshalText", u, err)
+			for _, st := range sets {
+				fh, _, _, err := st.FindByString(ni.s)
+				njudge("CompatibleSet.FindByString", fh, err)
+			}
+		}
 	})
+}
+
+// orderViolation: Version.Compare is not sign-antisymmetric / not transitive on
+// versions the workload generated; "the highest registered version" of the
+// lookup clause is not defined then.
+func (m *mon) orderViolation(kind, what string, about util.Version, where string) {
+	m.inconsistent.add(what)
+	m.r.Violation(fmt.Sprintf("Version.Compare:not-an-order:%s:%s", kind, orderClass(about)),
+		fmt.Sprintf("Version.Compare is not an order (%s) on %s: %s", kind, where, what), map[string]string{"kind": kind, "case": what, "where": where})
+}
+
+func newRichPoolHint(t hint.Type, v util.Version, ti, major int) (poolHint, bool) {
+	ph := poolHint{h: hint.NewHint(t, v), ti: ti, major: major, rank: -1, mv: parseModelVer(v.String())}
+	return ph, ph.mv.ok
+}
+
+func (m *mon) judgeRegistered(fn string, judge func(string, hint.Hint, error), h hint.Hint, v int, found bool, err error) {
+	switch {
+	case err != nil:
+		judge(fn, hint.Hint{}, err)
+	case !found:
+		judge(fn, hint.Hint{}, fmt.Errorf("registered hint not found"))
+	case v != 7:
+		judge(fn, hint.Hint{}, fmt.Errorf("value %d of another entry", v))
+	default:
+		judge(fn, h, nil)
+	}
 }
 
 func validType(s string) bool { return hint.Type(s).IsValid(nil) == nil }
@@ -151,6 +322,7 @@ var setTypes = []hint.Type{"alpha", "be-ta", "ga+mma_1"}
 var minorSpecs = []string{"%d.0.0", "%d.0.1", "%d.1.0", "%d.2.3-beta", "%d.2.3", "%d.10.0"}
 
 type poolHint struct {
+	mv    modelVer // rich pools: the printed version read by the harness' own semver model
 	h     hint.Hint
 	ti    int
 	major int
@@ -171,9 +343,19 @@ func hintPool() []poolHint {
 }
 
 type regEntry struct {
-	rank  int
+	ph    poolHint
 	value int
 	hint  string
+}
+
+func sign(i int) int {
+	switch {
+	case i < 0:
+		return -1
+	case i > 0:
+		return 1
+	}
+	return 0
 }
 
 type op struct {
@@ -198,24 +380,59 @@ func (m *mon) runSequence(seqNo int, cacheSize int, script []scriptOp, pool []po
 	var fp strings.Builder
 	adds, finds := 0, 0
 
+	rich := len(pool) > 0 && pool[0].rank < 0
+	// order of two registered hints: the classic pool has its own ranks; the
+	// rich pool is ordered by the harness' own semver precedence (cmpModelVer),
+	// never by the repository's Version.Compare
+	cmp := func(a, b poolHint) int {
+		if a.rank >= 0 && b.rank >= 0 {
+			return sign(a.rank - b.rank)
+		}
+		return cmpModelVer(a.mv, b.mv)
+	}
+	inconsistent := map[[2]int]bool{} // groups on whose registered versions Version.Compare is not a total preorder
+	noteAdded := func(key [2]int, x poolHint) {
+		if inconsistent[key] {
+			return
+		}
+		vs := make([]util.Version, 0, len(registered[key]))
+		for _, e := range registered[key] {
+			vs = append(vs, e.ph.h.Version())
+		}
+		r.Count("Version.Compare_order_checks", 1)
+		if kind, what, about := orderDefect(x.h.Version(), vs); kind != "" {
+			inconsistent[key] = true
+			m.orderViolation(kind, what, about, fmt.Sprintf("versions registered for one type and major [sequence %s #%d]", via, seqNo))
+		}
+	}
+
+	// model: the registered entries with that type and major which no other one exceeds
 	model := func(ph poolHint) (int, bool, []regEntry) {
-		es := registered[[2]int{ph.ti, ph.major}]
+		key := [2]int{ph.ti, ph.major}
+		es := registered[key]
 		if len(es) == 0 {
 			return 0, false, nil
 		}
 		best := es[0]
 		for _, e := range es[1:] {
-			if e.rank > best.rank {
+			if cmp(e.ph, best.ph) > 0 {
 				best = e
 			}
 		}
 		var ties []regEntry
 		for _, e := range es {
-			if e.rank == best.rank {
+			if cmp(e.ph, best.ph) == 0 {
 				ties = append(ties, e)
 			}
 		}
 		return best.value, true, ties
+	}
+
+	sigTail := func(ph poolHint) string {
+		if !rich {
+			return ""
+		}
+		return ":version-class=" + versionClass(ph.h.Version())
 	}
 
 	judge := func(fn string, ph poolHint, got int, found bool, prevAddLower bool) {
@@ -223,7 +440,13 @@ func (m *mon) runSequence(seqNo int, cacheSize int, script []scriptOp, pool []po
 		o := &ops[len(ops)-1]
 		o.Res = fmt.Sprintf("value=%d found=%v", got, found)
 		o.Want = fmt.Sprintf("value=%d found=%v", want, wfound)
+		if inconsistent[[2]int{ph.ti, ph.major}] { // reported on its own; the lookup is judged all the same
+			r.Count("lookups_in_groups_where_Version.Compare_is_not_an_order", 1)
+		}
 		r.Count("lookups_judged", 1)
+		if rich {
+			r.Count("lookups_judged_rich_versions", 1)
+		}
 		ok := found == wfound
 		if ok && found {
 			ok = false
@@ -260,8 +483,34 @@ func (m *mon) runSequence(seqNo int, cacheSize int, script []scriptOp, pool []po
 			cache = "cache-off"
 		}
 		w := seqWitness{CacheSize: cacheSize, Ops: append([]op{}, ops...)}
-		r.Violation(fmt.Sprintf("CompatibleSet.%s:%s:%s", fn, class, cache),
+		r.Violation(fmt.Sprintf("CompatibleSet.%s:%s:%s%s", fn, class, cache, sigTail(ph)),
 			fmt.Sprintf("%s(%s) = (%d, %v); registered entries with that type and major: highest is value %d (found=%v) [sequence %s #%d, %d ops]", fn, ph.h, got, found, want, wfound, via, seqNo, len(ops)), w)
+	}
+
+	// a hint handed back by a lookup: invalid (nothing), or exactly the expected one
+	judgeHint := func(fn string, ph poolHint, fh hint.Hint, allowed func(string) bool, what string) {
+		r.Count("lookup_returned_hints_judged", 1)
+		if fh.IsValid(nil) != nil {
+			return
+		}
+		if allowed(fh.String()) && fh.Type() == ph.h.Type() {
+			return
+		}
+		w := seqWitness{CacheSize: cacheSize, Ops: append([]op{}, ops...)}
+		r.Violation(fmt.Sprintf("CompatibleSet.%s:%s%s", fn, what, sigTail(ph)),
+			fmt.Sprintf("%s for %s handed back the valid hint %q (type %q version %q) [sequence %s #%d, %d ops]", fn, ph.h, fh.String(), fh.Type(), fh.Version(), via, seqNo, len(ops)), w)
+	}
+	registeredString := func(t hint.Type) func(string) bool {
+		return func(s string) bool {
+			for _, es := range registered {
+				for _, e := range es {
+					if e.hint == s && e.ph.h.Type() == t {
+						return true
+					}
+				}
+			}
+			return false
+		}
 	}
 
 	lastAddLower := "" // hint string whose Add was of a lower version than the registered highest
@@ -272,8 +521,7 @@ func (m *mon) runSequence(seqNo int, cacheSize int, script []scriptOp, pool []po
 		case "Add":
 			value := len(ops) + 1
 			ops = append(ops, op{Op: "Add", Arg: ph.h.String(), Val: value})
-			_, had, _ := model(ph)
-			wantBefore, _, _ := model(ph)
+			wantBefore, had, _ := model(ph)
 			err := st.Add(ph.h, value)
 			if err != nil {
 				ops[len(ops)-1].Res = "error: " + err.Error()
@@ -285,14 +533,19 @@ func (m *mon) runSequence(seqNo int, cacheSize int, script []scriptOp, pool []po
 			adds++
 			r.Count("adds_ok", 1)
 			lower := false
+			key := [2]int{ph.ti, ph.major}
 			if had {
-				if e, ok := byValue[wantBefore]; ok && e.rank > ph.rank {
+				if e, ok := byValue[wantBefore]; ok && cmp(e, ph) > 0 {
 					lower = true
 				}
 			}
-			key := [2]int{ph.ti, ph.major}
-			registered[key] = append(registered[key], regEntry{rank: ph.rank, value: value, hint: ph.h.String()})
+			noteAdded(key, ph)
+			registered[key] = append(registered[key], regEntry{ph: ph, value: value, hint: ph.h.String()})
 			byValue[value] = ph
+			if rich {
+				r.Count("adds_ok_rich_versions", 1)
+				m.versionClasses.add("registry:" + versionClass(ph.h.Version()))
+			}
 			lastAddLower = ""
 			if lower {
 				lastAddLower = ph.h.String()
@@ -306,22 +559,31 @@ func (m *mon) runSequence(seqNo int, cacheSize int, script []scriptOp, pool []po
 			judge("Find", ph, got, found, lastAddLower == ph.h.String())
 		case "FindByString":
 			ops = append(ops, op{Op: "FindByString", Arg: ph.h.String()})
-			_, got, found, err := st.FindByString(ph.h.String())
+			fh, got, found, err := st.FindByString(ph.h.String())
 			finds++
 			if err != nil {
 				ops[len(ops)-1].Res = "error: " + err.Error()
 				r.Violation("CompatibleSet.FindByString:error-on-printed-hint", fmt.Sprintf("FindByString(%q): %v", ph.h.String(), err), seqWitness{CacheSize: cacheSize, Ops: append([]op{}, ops...)})
 			} else {
 				judge("FindByString", ph, got, found, lastAddLower == ph.h.String())
+				judgeHint("FindByString", ph, fh, func(s string) bool { return s == ph.h.String() }, "returned-valid-hint-differs-from-printed")
 			}
-		case "FindBytType": // not judged: perturbs the cache
+		case "FindBytType": // which entry is not judged (perturbs the cache); the hint handed back is
 			ops = append(ops, op{Op: "FindBytType", Arg: string(ph.h.Type())})
-			_, _, _ = st.FindBytType(ph.h.Type())
+			fh, _, found := st.FindBytType(ph.h.Type())
 			r.Count("perturbing_lookups", 1)
+			if found {
+				ops[len(ops)-1].Res = fh.String()
+				judgeHint("FindBytType", ph, fh, registeredString(ph.h.Type()), "returned-valid-hint-never-registered")
+			}
 		case "FindBytTypeString":
 			ops = append(ops, op{Op: "FindBytTypeString", Arg: string(ph.h.Type())})
-			_, _, _, _ = st.FindBytTypeString(string(ph.h.Type()))
+			fh, _, found, _ := st.FindBytTypeString(string(ph.h.Type()))
 			r.Count("perturbing_lookups", 1)
+			if found {
+				ops[len(ops)-1].Res = fh.String()
+				judgeHint("FindBytTypeString", ph, fh, registeredString(ph.h.Type()), "returned-valid-hint-never-registered")
+			}
 		case "FindGarbage":
 			s := []string{"", "alpha", "alpha-", "no version here", "be-ta-vx"}[so.hint%5]
 			ops = append(ops, op{Op: "FindByString", Arg: s})
@@ -333,11 +595,18 @@ func (m *mon) runSequence(seqNo int, cacheSize int, script []scriptOp, pool []po
 	if adds > 0 && finds > 0 {
 		h := fnv.New64a()
 		h.Write([]byte(fp.String()))
-		r.Case(fmt.Sprintf("seq/c%d/%x", cacheSize, h.Sum64()))
+		if rich {
+			for _, ph := range pool { // the pool differs from sequence to sequence
+				h.Write([]byte(ph.h.String() + ","))
+			}
+			r.Case(fmt.Sprintf("seq-rich/c%d/%x", cacheSize, h.Sum64()))
+		} else {
+			r.Case(fmt.Sprintf("seq/c%d/%x", cacheSize, h.Sum64()))
+		}
 	} else {
 		r.Eval(1)
 	}
-	if seqNo < 2 && via == "random" {
+	if seqNo < 1 && cacheSize > 0 && (via == "random" || via == "random-rich-versions") {
 		r.Sample(seqWitness{CacheSize: cacheSize, Ops: ops})
 	}
 }
@@ -395,9 +664,14 @@ func genScript(rng *rand.Rand, pool []poolHint) []scriptOp {
 func TestC31(t *testing.T) {
 	r := vlib.Start(t, "C31", vlib.LevelExploration)
 	defer r.Finish()
-	r.SetRule("part A: case = (valid Type, valid Version) -> NewHint(t,v).String() -> ParseHint and Hint.UnmarshalText; exhaustive over all valid types over {a,v,1,-} up to length 6 x {v0.0.1, v1.2.3, v1.0.0-v2, v10.0.0}, then PRNG types up to 100 chars over [a-z0-9-_+] rich in '-v<digit>' with PRNG versions (prerelease/metadata); distinct = printed string. part B: case = one PRNG sequence of Add/Find/FindByString (+ unjudged FindBytType, FindBytTypeString, garbage FindByString) on a real CompatibleSet[int] with cache off/on over 3 types x 3 majors x 6 versions, every lookup compared with a cache-free list of the successful Adds; distinct = (cache, op sequence); non-trivial = at least one Add and one lookup")
-	r.Assume("valid type = Type.IsValid nil; valid version = produced by util.ParseVersion and Version.IsValid nil; pairs whose Hint.IsValid fails (version longer than 20) are skipped")
-	r.Assume("an Add that returns an error registered nothing; the highest version is decided by the generator's own ordering of the version pool, not by Version.Compare")
+	r.SetRule("part A: case = (valid Type, valid Version) -> NewHint(t,v).String() -> every parsing entry point (ParseHint, MustNewHint, EnsureParseHint, Hint.UnmarshalText, MarshalText->UnmarshalText, JSON {_hint} -> Hint and -> string -> ParseHint), result compared with the printed hint: type, printed form byte for byte, Version.Compare both ways, major/minor/patch/prerelease, Hint.Equal; " +
+		"(the text/JSON encodings only in A3) A1 exhaustive over all valid types over {a,v,1,-} up to length 6 x {v0.0.1, v1.2.3, v1.0.0-v2, v10.0.0}; A2 PRNG types up to 100 chars over [a-z0-9-_+] rich in '-v<digit>' with simple PRNG versions; " +
+		"A3 versions over the whole grammar util.ParseVersion accepts: a directed list of every shape x 8 types, then PRNG versions (with/without v prefix, major/minor/patch in {0..3,9,10,11,99,100,65535,2^32}, short and zero-padded main part, 0-3 prerelease identifiers and 0-2 build identifiers over [0-9A-Za-z-]: numeric, lower, UPPER, MiXed, alphanumeric, hyphenated) each with its siblings that differ only in letter case / only in prerelease / only in build metadata; for A3 cases additionally a CompatibleSet (cache off and on) with that one hint registered: FindByString, Find, FindBytType, FindBytTypeString, Traverse must hand back exactly that hint, and noisy inputs around the printed hint (spaces, tabs, newlines, NULs on either side, upper-cased type part, whole string upper-cased) through ParseHint, Hint.UnmarshalText and FindByString must give an error, an invalid hint or exactly the printed hint; distinct = printed string (version class in coverage.version_classes). " +
+		"part B: case = one PRNG sequence of Add/Find/FindByString (+ FindBytType, FindBytTypeString, garbage FindByString that perturb the cache) on a real CompatibleSet[int] with cache off/on, every lookup compared with a cache-free list of the successful Adds ordered by a model independent of Version.Compare; B1 classic pool 3 types x 3 majors x 6 numeric versions; B2 directed: 12 (lower, higher) pairs that differ only in prerelease (rc.1/rc.2, alpha/beta, 1/2, 9/10, B/a, rc.1/release, alpha/alpha.1, ...) x both insertion orders x Find/FindByString of lower, higher and a third version of that major; directed sequences on one group {v1.0.0-RC1, v1.0.0-rc1, v1.0.0, v1.0.0+B7, v1.1.0-bEta.2+X86, v1.1.0-beta.2}, then a PRNG pool per sequence: 2-3 (type, major) groups x 6 versions that differ in minor/patch, only in prerelease, only in build metadata or only in letter case (majors 0,1,9,10,2^32); the hint handed back by FindByString must be invalid or the printed one, by FindBytType(String) a registered one; distinct = (cache, pool, op sequence); non-trivial = at least one Add and one lookup")
+	r.Assume("valid type = Type.IsValid nil; valid version = produced by util.ParseVersion and Version.IsValid nil; pairs whose Hint.IsValid fails (version longer than 20) are skipped; version strings the constructor refuses are counted (coverage.version_forms_refused), not judged")
+	r.Assume("an Add that returns an error registered nothing; the highest version: classic pool (B1) by the generator's own ordering of the numeric versions; rich pools (B2) by the harness' own reading of semver.org section 11 on the printed version string (major, minor, patch numerically; no prerelease above any prerelease; prerelease identifiers left to right, numeric numerically, alphanumeric in ASCII order, numeric below alphanumeric, more fields higher; build metadata ignored, so between two registered versions that differ only in build metadata either entry is accepted) - never by Version.Compare")
+	r.Assume("the lookup clause presupposes that Version.Compare is an order: on every group of registered versions (B) and every sibling family (A3) it must be sign-antisymmetric and transitive, otherwise Version.Compare:not-an-order is reported")
+	r.Assume("noisy input: only what surrounds the printed hint or the letter case of the type part is altered; an error, a hint that fails IsValid, or exactly the printed hint are all acceptable answers")
 	m := &mon{r: r}
 
 	// ---- A1 exhaustive
@@ -415,7 +689,7 @@ func TestC31(t *testing.T) {
 			if validType(string(prefix)) {
 				nValid++
 				for _, v := range versions {
-					m.checkHint(hint.Type(prefix), v, "exhaustive")
+					m.checkHint(hint.Type(prefix), v, "exhaustive", false)
 				}
 			}
 		}
@@ -430,7 +704,6 @@ func TestC31(t *testing.T) {
 	r.Exhaustive(true)
 	r.Set("exhaustive_bound", fmt.Sprintf("part A: all %d strings over {a,v,1,-} of length 2..%d, %d valid types, x %d versions; parts A(random) and B are sampled", nTypes, maxLen, nValid, len(versions)))
 	r.Sample(hintCase{Type: "a-v1", Version: "v0.0.1", Printed: hint.NewHint("a-v1", versions[0]).String(), Via: "exhaustive"})
-	r.Sample(hintCase{Type: "av", Version: "v1.0.0-v2", Printed: hint.NewHint("av", versions[2]).String(), Via: "exhaustive"})
 
 	// ---- A2 random long types and versions
 	nA := r.N(20000, 400000)
@@ -446,10 +719,67 @@ func TestC31(t *testing.T) {
 			r.Count("generated_versions_invalid", 1)
 			continue
 		}
-		m.checkHint(hint.Type(ts), v, "random")
-		if i < 2 {
+		m.checkHint(hint.Type(ts), v, "random", false)
+		if i < 1 {
 			r.Sample(hintCase{Type: ts, Version: v.String(), Printed: hint.NewHint(hint.Type(ts), v).String(), Via: "random"})
 		}
+	}
+
+	// ---- A3 versions over the whole grammar, registry with one entry, noise
+	var family []util.Version // the valid versions of the current sibling family
+	tryVersion := func(t hint.Type, in, form, via string) {
+		m.inputForms.add(form)
+		v, err := util.ParseVersion(in)
+		if err != nil {
+			r.Count("version_strings_refused_by_constructor", 1)
+			m.refusedForms.add("ParseVersion:" + form)
+			return
+		}
+		r.Count("versions_full_grammar", 1)
+		family = append(family, v)
+		m.checkHint(t, v, via, true)
+	}
+	// the lookup clause needs "highest version": Version.Compare must be an order on the versions generated
+	checkFamilyOrder := func(where string) {
+		for i := 1; i < len(family); i++ {
+			r.Count("Version.Compare_order_checks", 1)
+			if kind, what, about := orderDefect(family[i], family[:i]); kind != "" {
+				m.orderViolation(kind, what, about, where)
+				break
+			}
+		}
+		family = family[:0]
+	}
+	for _, in := range directedVersionInputs {
+		for _, t := range directedTypes {
+			tryVersion(t, in, "directed", "directed-version")
+		}
+		family = family[:0]
+	}
+	for _, in := range directedVersionInputs { // same main part v1.2.3 for most of them: one family
+		if v, err := util.ParseVersion(in); err == nil && v.Major() == 1 && v.Minor() == 2 && v.Patch() == 3 && len(family) < 40 {
+			family = append(family, v)
+		}
+	}
+	checkFamilyOrder("the directed versions with main part v1.2.3")
+	nV := r.N(500, 40000)
+	for i := 0; i < nV; i++ {
+		rng := r.Rand(31, 3, i)
+		t := directedTypes[rng.Intn(len(directedTypes))]
+		if rng.Intn(2) == 0 {
+			if ts := genType(rng); validType(ts) {
+				t = hint.Type(ts)
+			}
+		}
+		p := genVerParts(rng)
+		tryVersion(t, p.String(), p.form, "random-version")
+		p.prefix = "v"
+		sb := siblings(rng, p)
+		r.Count("version_sibling_families", 1)
+		for _, q := range sb {
+			tryVersion(t, q.String(), q.form, "random-version-sibling")
+		}
+		checkFamilyOrder(fmt.Sprintf("a version and its siblings [family %d]", i))
 	}
 
 	// ---- B sequences
@@ -481,9 +811,107 @@ func TestC31(t *testing.T) {
 			r.Guard("CompatibleSet", fmt.Sprintf("random sequence %d cache %d", i, cs), func() { m.runSequence(i, cs, sc, pool, "random") })
 		}
 	}
+	// the harness' model of precedence against the examples of semver.org section 11
+	chain := []string{"v1.0.0-alpha", "v1.0.0-alpha.1", "v1.0.0-alpha.beta", "v1.0.0-beta", "v1.0.0-beta.2", "v1.0.0-beta.11", "v1.0.0-rc.1", "v1.0.0", "v2.0.0", "v2.1.0", "v2.1.1", "v10.0.0", "v4294967296.0.0"}
+	for i := range chain {
+		for j := range chain {
+			a, b := parseModelVer(chain[i]), parseModelVer(chain[j]+"+B-7.01")
+			if !a.ok || !b.ok || cmpModelVer(a, b) != sign(i-j) {
+				r.Inconclusive(fmt.Sprintf("harness model of semver precedence is wrong on %s vs %s", chain[i], chain[j]))
+				return
+			}
+		}
+	}
+
+	// directed: one group whose versions differ only in letter case, only in prerelease, only in build metadata
+	var dpool []poolHint
+	for _, vs := range []string{"v1.0.0-RC1", "v1.0.0-rc1", "v1.0.0", "v1.0.0+B7", "v1.1.0-bEta.2+X86", "v1.1.0-beta.2"} {
+		ph, ok := newRichPoolHint("al-v1pha", util.MustNewVersion(vs), 0, 1)
+		if !ok {
+			r.Inconclusive("harness model does not read " + vs)
+			return
+		}
+		dpool = append(dpool, ph)
+	}
+	directedRich := [][]scriptOp{
+		{{"Add", 1}, {"Add", 0}, {"Find", 0}, {"Find", 1}, {"FindByString", 0}, {"FindByString", 1}, {"Find", 2}},
+		{{"Add", 0}, {"Add", 1}, {"FindByString", 0}, {"FindByString", 1}, {"Find", 0}},
+		{{"Add", 2}, {"Add", 3}, {"FindByString", 3}, {"Find", 3}, {"FindBytType", 0}, {"FindByString", 2}},
+		{{"Add", 3}, {"Add", 2}, {"FindByString", 2}, {"FindByString", 3}, {"FindBytTypeString", 0}},
+		{{"Add", 5}, {"Add", 4}, {"Find", 4}, {"FindByString", 4}, {"FindByString", 5}, {"Add", 0}, {"FindByString", 0}, {"FindByString", 1}},
+		{{"FindByString", 0}, {"Add", 2}, {"FindByString", 0}, {"FindByString", 4}, {"Add", 4}, {"FindByString", 0}, {"FindByString", 3}},
+	}
+	for i, sc := range directedRich {
+		for _, cs := range []int{0, 8} {
+			r.Guard("CompatibleSet", fmt.Sprintf("directed (rich versions) %d cache %d", i, cs), func() { m.runSequence(i, cs, sc, dpool, "directed-rich-versions") })
+		}
+	}
+	// directed: two versions of one type and major whose precedence is decided by the prerelease
+	// (lower, higher), both insertion orders; every lookup entry point must give the higher one
+	for pi, pair := range [][2]string{
+		{"v1.0.0-rc.1", "v1.0.0-rc.2"}, {"v1.0.0-alpha", "v1.0.0-beta"}, {"v1.0.0-1", "v1.0.0-2"}, {"v1.0.0-9", "v1.0.0-10"},
+		{"v1.0.0-B", "v1.0.0-a"}, {"v1.0.0-rc.1", "v1.0.0"}, {"v1.0.0-alpha", "v1.0.0-alpha.1"},
+		{"v1.0.0-1", "v1.0.0-a"}, {"v1.0.0-rc.9", "v1.0.0-rc.10"}, {"v1.0.0-rc1", "v1.0.0-rd1"}, {"v1.0.0-RC1", "v1.0.0-rc1"}, {"v1.0.0-x.7.z.92", "v1.0.0-x.7.z.100"},
+	} {
+		var ppool []poolHint
+		for _, vs := range []string{pair[0], pair[1], "v1.0.1-probe+B7"} {
+			ph, ok := newRichPoolHint("x-v1y", util.MustNewVersion(vs), 0, 1)
+			if !ok {
+				r.Inconclusive("harness model does not read " + vs)
+				return
+			}
+			ppool = append(ppool, ph)
+		}
+		if cmpModelVer(ppool[0].mv, ppool[1].mv) >= 0 {
+			r.Inconclusive("harness model orders " + pair[0] + " not below " + pair[1])
+			return
+		}
+		lookups := []scriptOp{{"Find", 0}, {"Find", 1}, {"FindByString", 0}, {"FindByString", 1}, {"Find", 2}, {"FindByString", 2},
+			{"FindBytType", 0}, {"Find", 1}, {"FindBytTypeString", 0}, {"FindByString", 0}, {"Find", 0}}
+		for oi, order := range [][2]int{{0, 1}, {1, 0}} {
+			sc := append([]scriptOp{{"Add", order[0]}, {"Add", order[1]}}, lookups...)
+			for _, cs := range []int{0, 8} {
+				r.Guard("CompatibleSet", fmt.Sprintf("directed pair %v order %d cache %d", pair, oi, cs), func() { m.runSequence(2*pi+oi, cs, sc, ppool, "directed-prerelease-pair") })
+				r.Count("directed_prerelease_pair_sequences", 1)
+			}
+		}
+	}
+	nR := r.N(800, 50000)
+	for i := 0; i < nR; i++ {
+		rng := r.Rand(31, 4, i)
+		rpool := genRichPool(rng)
+		for _, ph := range rpool {
+			if err := ph.h.IsValid(nil); err != nil {
+				r.Inconclusive("rich pool hint invalid: " + err.Error())
+				return
+			}
+		}
+		sc := genScript(rng, rpool)
+		for _, cs := range []int{0, 8} {
+			r.Guard("CompatibleSet", fmt.Sprintf("random sequence %d (rich versions) cache %d", i, cs), func() { m.runSequence(i, cs, sc, rpool, "random-rich-versions") })
+		}
+	}
+	r.Set("sequences_rich_versions", 2*(nR+len(directedRich)))
+	r.Set("version_classes", m.versionClasses.counts())
+	r.Set("version_input_forms", m.inputForms.names())
+	r.Set("version_forms_refused", m.refusedForms.counts())
+	r.Set("parsing_entry_points", m.entryPoints.counts())
+	r.Set("noise_kinds", m.noiseKinds.names())
+	r.Set("noise_outcomes", m.noiseOutcomes.counts())
+	inc := m.inconsistent.names()
+	r.Count("lookups_in_groups_where_Version.Compare_is_not_an_order", 0)
+	r.Set("version_pairs_where_Version.Compare_is_not_an_order", len(inc))
+	if len(inc) > 8 {
+		inc = inc[:8]
+	}
+	r.Set("version_pairs_where_Version.Compare_is_not_an_order_examples", inc)
 	r.Set("sequences", 2*(nB+len(directed)))
 
 	if r.Counter("hints_printed_and_parsed") == 0 || r.Counter("lookups_judged") == 0 {
 		r.Inconclusive("no hint parsed or no lookup judged")
+	}
+	if r.Counter("hints_with_upper_case_letter_in_version") == 0 || r.Counter("hints_with_build_metadata") == 0 || r.Counter("noisy_inputs_parsed") == 0 ||
+		r.Counter("lookups_judged_rich_versions") == 0 || r.Counter("Version.Compare_order_checks") == 0 {
+		r.Inconclusive("versions of the full grammar were not driven")
 	}
 }
